@@ -63,15 +63,17 @@ Record sim := mkSim {
   st : state;
   g_now : bool; g_timer : bool; g_cb : bool;   (* which seams are armed *)
   rel : bool;                                  (* the held loop has been released *)
-  seen : nat                                   (* executions already matched with observations *)
+  seen : nat;                                  (* executions already matched with observations *)
+  pend : option item                           (* an Enqueue past its stopped test, held under p.lock *)
 }.
 
 Definition with_st (m : sim) (s : state) : sim :=
-  mkSim s (g_now m) (g_timer m) (g_cb m) (rel m) (seen m).
+  mkSim s (g_now m) (g_timer m) (g_cb m) (rel m) (seen m) (pend m).
 
 Definition sim_eqb (a b : sim) : bool :=
   state_eqb (st a) (st b) && Bool.eqb (g_now a) (g_now b) && Bool.eqb (g_timer a) (g_timer b) &&
-  Bool.eqb (g_cb a) (g_cb b) && Bool.eqb (rel a) (rel b) && Nat.eqb (seen a) (seen b).
+  Bool.eqb (g_cb a) (g_cb b) && Bool.eqb (rel a) (rel b) && Nat.eqb (seen a) (seen b) &&
+  match pend a, pend b with Some x, Some y => item_eqb x y | None, None => true | _, _ => false end.
 
 Fixpoint dedupe (l : list sim) : list sim :=
   match l with
@@ -90,6 +92,14 @@ Definition at_seam (m : sim) : bool :=
 
 Definition held (m : sim) : bool := at_seam m && negb (rel m).
 
+(* the loop's next step takes p.lock (the peek at the top of the loop, the re-check and pop in
+   execute) and a held Enqueue has it *)
+Definition lock_wait (m : sim) : bool :=
+  match pend m, loop (st m) with
+  | Some _, LTop | Some _, LExecuting _ => true
+  | _, _ => false
+  end.
+
 Definition opt_list {A} (o : option A) : list A := match o with Some a => [a] | None => [] end.
 
 (* candidates for a tie among the entries below the root *)
@@ -107,7 +117,8 @@ Definition succs (m : sim) : list sim :=
   match step Fixed s EvClose2Ret with Some s' => [with_st m s'] | None =>
   match step Fixed s EvDone with Some s' => [with_st m s'] | None =>
   if held m then [] else
-  let m' := if at_seam m then mkSim s (g_now m) (g_timer m) (g_cb m) false (seen m) else m in
+  if lock_wait m then [] else
+  let m' := if at_seam m then mkSim s (g_now m) (g_timer m) (g_cb m) false (seen m) (pend m) else m in
   match loop s with
   | LCallback _ => map (with_st m') (opt_list (step Fixed s EvCbRet))
   | LExecuting _ =>
@@ -133,11 +144,31 @@ Definition apply_op (o : op) (m : sim) : list sim :=
   let s := st m in
   match o with
   | OEnq it =>
+      if match pend m with Some _ => true | None => false end then [] else
       if stopped s then [m]
       else if head_has_key (ikey it) (q s)
            then map (fun p => with_st m (do_enqueue it p s)) (pick_range s)
            else [with_st m (do_enqueue it 0 s)]
+  | OEnqHeld it =>
+      (* past the stopped test (else the call has returned already), then held with p.lock;
+         one at a time, and no other client call while it is held (they would block) *)
+      if stopped s then [m]
+      else match pend m with
+           | None => [mkSim s (g_now m) (g_timer m) (g_cb m) (rel m) (seen m) (Some it)]
+           | Some _ => []
+           end
+  | OEnqGo _ =>
+      (* the locked body runs now, whatever happened to the stopped flag meanwhile *)
+      match pend m with
+      | None => [m]
+      | Some it =>
+          let m0 := mkSim s (g_now m) (g_timer m) (g_cb m) (rel m) (seen m) None in
+          if head_has_key (ikey it) (q s)
+          then map (fun p => with_st m0 (do_enqueue it p s)) (pick_range s)
+          else [with_st m0 (do_enqueue it 0 s)]
+      end
   | ODeq k =>
+      if match pend m with Some _ => true | None => false end then [] else
       if stopped s then [m]
       else if head_has_key k (q s)
            then map (fun p => with_st m (do_dequeue k p s)) (pick_range s)
@@ -149,8 +180,8 @@ Definition apply_op (o : op) (m : sim) : list sim :=
       | Some s' => [with_st m s']
       | None => match step Fixed s EvClose2 with Some s' => [with_st m s'] | None => [m] end
       end
-  | OGates a b c => [mkSim s a b c (rel m) (seen m)]
-  | ORelease => [if held m then mkSim s (g_now m) (g_timer m) (g_cb m) true (seen m) else m]
+  | OGates a b c => [mkSim s a b c (rel m) (seen m) (pend m)]
+  | ORelease => [if held m then mkSim s (g_now m) (g_timer m) (g_cb m) true (seen m) (pend m) else m]
   end.
 
 (* a racing client call lands after any number of the loop's steps *)
@@ -190,12 +221,14 @@ Fixpoint zpairs_eqb (a b : list (Z * Z)) : bool :=
 Definition closed_count (s : state) : Z :=
   (match close s with CReturned => 1 | _ => 0 end) + Z.of_nat (cret s).
 
+Definition pos_sim (m : sim) : Z := if lock_wait m then 5 else pos_of (st m).
+
 Definition matches (o : obs) (m : sim) : bool :=
-  zpairs_eqb (new_execs m) (o_execs o) && (pos_of (st m) =? o_pos o) && (dl_of (st m) =? o_dl o) &&
+  zpairs_eqb (new_execs m) (o_execs o) && (pos_sim m =? o_pos o) && (dl_of (st m) =? o_dl o) &&
   (closed_count (st m) =? o_closed o).
 
 Definition mark_seen (m : sim) : sim :=
-  mkSim (st m) (g_now m) (g_timer m) (g_cb m) (rel m) (length (executed (st m))).
+  mkSim (st m) (g_now m) (g_timer m) (g_cb m) (rel m) (length (executed (st m))) (pend m).
 
 Fixpoint sim_hist (fuel : nat) (h : hist) (ms : list sim) : list sim :=
   match h with
@@ -208,7 +241,7 @@ Fixpoint sim_hist (fuel : nat) (h : hist) (ms : list sim) : list sim :=
 Definition fuel_for (h : hist) : nat := 40 + 8 * length h.
 
 Definition model_agrees (c0 : Z) (h : hist) : bool :=
-  match sim_hist (fuel_for h) h [mkSim (init_at c0) false false false false 0] with
+  match sim_hist (fuel_for h) h [mkSim (init_at c0) false false false false 0 None] with
   | [] => false
   | _ => true
   end.
@@ -250,6 +283,29 @@ Example check_two_closes :
       (SOp OClose, mkObs [] 4 0 0);
       (SOp OClose, mkObs [] 4 0 1) ]) = 2.
 Proof. vm_compute. split; reflexivity. Qed.
+
+(* an Enqueue admitted before Close and completed after Close returned: the item stays queued for
+   ever (first history); a callback after Close returned is an oracle failure (second) *)
+Example check_inflight_enqueue :
+  check_case (CScript 0
+    [ (SOp (OEnqHeld (mkItem 1 0 7)), mkObs [] 0 0 0);
+      (SOp OClose, mkObs [] 0 0 1);
+      (SOp (OEnqGo (mkItem 1 0 7)), mkObs [] 0 0 1);
+      (SOp (OAdv 5000000), mkObs [] 0 0 1) ]) = 0 /\
+  check_case (CScript 0
+    [ (SOp (OEnqHeld (mkItem 1 0 7)), mkObs [] 0 0 0);
+      (SOp OClose, mkObs [] 0 0 1);
+      (SOp (OEnqGo (mkItem 1 0 7)), mkObs [(7, 0)] 0 0 1) ]) = 2.
+Proof. vm_compute. split; reflexivity. Qed.
+
+(* ... while the loop waits for the lock the held Enqueue has (pos 5), and runs the item after *)
+Example check_inflight_lock_wait :
+  check_case (CScript 0
+    [ (SOp (OEnq (mkItem 1 1000000 7)), mkObs [] 3 1000000 0);
+      (SOp (OEnqHeld (mkItem 2 2000000 8)), mkObs [] 3 1000000 0);
+      (SOp (OAdv 1000000), mkObs [] 5 0 0);
+      (SOp (OEnqGo (mkItem 2 2000000 8)), mkObs [(7, 1000000)] 3 2000000 0) ]) = 0.
+Proof. vm_compute. reflexivity. Qed.
 
 (* ... and a stranded item is an oracle failure (verdict 2) *)
 Example check_stranded :
